@@ -230,8 +230,10 @@ pub fn c18_oracle(case: &ConvCase, exp: &Expected, obs: &Observation) -> Verdict
     let view = client_view(&obs.client, exp);
     tri!(with_class("C18", class, comp_client_stream(exp, obs, &view, exp.msgs.len(), true)));
     // an interim response must be a 100
+    // (the 101 of an accepted protocol switch is that request's final response)
+    let switches = exp.msgs.iter().any(|e| e.status == 101);
     for m in &view.msgs {
-        if m.status < 200 && m.status != 100 {
+        if m.status < 200 && m.status != 100 && !(m.status == 101 && switches) {
             return crate::runner::fail(format!("C18/{}/interim-not-100", class), format!("interim status {}", m.status));
         }
     }
